@@ -261,7 +261,7 @@ func (o *OvsdbServer) Monitor(client *rpc2.Client, args []json.RawMessage, reply
 
 	tableUpdates := make(ovsdb.TableUpdates)
 	for t, request := range request {
-		op := ovsdb.Operation{Op: ovsdb.OperationSelect, Table: t, Columns: request.Columns}
+		op := ovsdb.Operation{Op: ovsdb.OperationSelect, Table: t, Columns: initialColumns(request.Columns)}
 		result, _ := transaction.Transact(op)
 		if len(result) == 0 || len(result[0].Rows) == 0 {
 			continue
@@ -277,6 +277,16 @@ func (o *OvsdbServer) Monitor(client *rpc2.Client, args []json.RawMessage, reply
 	o.monitors[client].monitors[value] = newMonitor(value, request, client)
 	o.monitors[client].monitors[value].dbName = db
 	return nil
+}
+
+// initialColumns returns the columns to select for the initial contents of a
+// monitor that selects the given columns: the row uuid is always needed to
+// build the reply
+func initialColumns(columns []string) []string {
+	if columns == nil {
+		return nil
+	}
+	return append([]string{"_uuid"}, columns...)
 }
 
 // MonitorCond monitors a given database table and provides updates to the client via an RPC callback
@@ -313,7 +323,7 @@ func (o *OvsdbServer) MonitorCond(client *rpc2.Client, args []json.RawMessage, r
 
 	tableUpdates := make(ovsdb.TableUpdates2)
 	for t, request := range request {
-		op := ovsdb.Operation{Op: ovsdb.OperationSelect, Table: t, Columns: request.Columns}
+		op := ovsdb.Operation{Op: ovsdb.OperationSelect, Table: t, Columns: initialColumns(request.Columns)}
 		result, _ := transaction.Transact(op)
 		if len(result) == 0 || len(result[0].Rows) == 0 {
 			continue
@@ -365,7 +375,7 @@ func (o *OvsdbServer) MonitorCondSince(client *rpc2.Client, args []json.RawMessa
 
 	tableUpdates := make(ovsdb.TableUpdates2)
 	for t, request := range request {
-		op := ovsdb.Operation{Op: ovsdb.OperationSelect, Table: t, Columns: request.Columns}
+		op := ovsdb.Operation{Op: ovsdb.OperationSelect, Table: t, Columns: initialColumns(request.Columns)}
 		result, _ := transaction.Transact(op)
 		if len(result) == 0 || len(result[0].Rows) == 0 {
 			continue
